@@ -168,7 +168,7 @@ func c15Render(c *Config) string {
 
 func TestVerifC15Sources(t *testing.T) {
 	L := ev.Begin("C15", "c15-sources", "exploration",
-		"the option list is derived from config/load.go at check time (every f.<Kind>Var registration); per option two well-formed values of its kind (grammar-specific values for validated options; for free-form strings also the empty string, values that begin or end with a quote and values that contain 'test.', 'cfg' or look like -v, and values outside ASCII). (1) equivalence: the value given on the command line, as FABIO_NAME, fabio_name, FaBiO_NaMe, plain NAME and in a properties file yields six reflect.DeepEqual configurations that differ from the default; (2) precedence: for every option and every ordered pair of the four source classes with two different values the result equals the higher source alone; (3) an ill-typed value (duration without unit, number with a letter) for every typed option as FABIO_NAME and in the properties file is refused with an error, as it is on the command line, not skipped. non-trivial = every (option, value, source) triple")
+		"the option list is derived from config/load.go at check time (every f.<Kind>Var registration); per option two well-formed values of its kind (grammar-specific values for validated options; for free-form strings also the empty string, values that begin or end with a quote and values that contain 'test.', 'cfg' or look like -v, and values outside ASCII). (1) equivalence: the value given on the command line, as FABIO_NAME, fabio_name, FaBiO_NaMe, plain NAME and in a properties file yields six reflect.DeepEqual configurations that differ from the default; (2) precedence: for every option and every ordered pair of the four source classes with two different values the result equals the higher source alone; (3) an ill-typed value (duration without unit, number with a letter) for every typed option as FABIO_NAME and in the properties file is refused with an error, as it is on the command line, not skipped; the same value in a plain variable is refused or leaves the configuration at its default. non-trivial = every (option, value, source) triple")
 	opts := c15Options()
 	// values that are easy to lose on the way: the empty string, and values that begin or end with a quote
 	opts = append(opts,
@@ -317,6 +317,26 @@ func TestVerifC15Sources(t *testing.T) {
 			if err == nil && cfg != nil {
 				L.Violation("ill-typed-value-silently-ignored/"+src, map[string]interface{}{"option": o.name, "kind": o.kind, "value": v, "source": src, "result": "a configuration with the option at its default"})
 			}
+		}
+	}
+	// (3b) the same ill-typed value in a PLAIN environment variable (PROXY_MAXCONN=5x). Such a name may belong to something
+	// else, so refusing to start and skipping the variable are both defensible; what is not: a configuration in which the
+	// option silently holds a third value (flag.Value.Set assigns the zero value before it reports the error - no
+	// connection limit, no timeout), or a properties file that is no longer consulted for that option
+	for _, o := range c15Options() {
+		v, ok := bad[o.kind]
+		if !ok || o.name == "version" || o.name == "v" {
+			continue
+		}
+		cfg, err, pm := c15Load(dir, nil, nil, map[string]string{o.name: v}, nil, 0)
+		L.Case()
+		L.NontrivialKey("ill-typed plain " + o.name)
+		if pm != "" {
+			L.Violation("load-panics", map[string]interface{}{"option": o.name, "value": v, "source": "plain-env", "panic": pm})
+			continue
+		}
+		if err == nil && cfg != nil && c15Render(cfg) != defRender {
+			L.Violation("ill-typed-plain-variable-changes-the-option", map[string]interface{}{"option": o.name, "kind": o.kind, "value": v, "source": "plain-env", "diff_to_default": c15Diff(def, cfg)})
 		}
 	}
 	L.End(true)
